@@ -18,7 +18,7 @@ def main():
     os.chdir(vlib.VERIF)
     try:
         mod = importlib.import_module(f"props.{prop.lower()}")
-    except ImportError as e:
+    except BaseException as e:  # noqa: BLE001 - any failure to load the machinery is infrastructure
         print(f"INFRA-FAILURE property={prop}: no check module ({e})", file=sys.stderr)
         sys.exit(2)
     vlib.main_entry(mod.run, prop)
